@@ -342,6 +342,20 @@ func concBody(s *simrt.Sim) {
 		}
 	}
 	s.Logf("pool %q initial %s", pool, fmtEntries(init))
+	if s.Choose(40) == 39 {
+		// rarely a bulk of 600 entries below the first view's realm, so that DeletePrefix / Clear / Iterate of that realm
+		// work on many entries at once (whatever a store does in portions has to stay one atomic step)
+		for i := 0; i < 600; i++ {
+			k := c.views[0].realm + fmt.Sprintf("~%03d", i)
+			if err := base.Set([]byte(k), []byte("b")); err != nil {
+				s.Fail("contract", "Set-error", "initial Set failed: %v", err)
+			}
+			init = append(init, kvp{k, "b"})
+		}
+		sort.Slice(init, func(i, j int) bool { return init[i].k < init[j].k })
+		s.Probe("bulk-of-600-entries")
+		s.Logf("plus 600 bulk entries %q000..599", c.views[0].realm+"~")
+	}
 
 	nclients := 2 + s.Choose(3)
 	if wide {
